@@ -104,7 +104,9 @@ func script(r Req, p string) ledger.RunScript {
 	}
 	sb.WriteString(body.String())
 	if r.Kind == "create" && r.Mval == "am" {
+		// one account of the postings and one the transaction does not touch
 		sb.WriteString("set_account_meta(@c, \"tag\", \"v\")\n")
+		sb.WriteString("set_account_meta(@auditor, \"tag\", \"w\")\n")
 	}
 	return ledger.RunScript{
 		Script:    ledger.Script{Plain: sb.String(), Vars: vars},
@@ -254,9 +256,7 @@ func absLog(prev, l *ledger.ChainedLog, by string, od bool) map[string]any {
 		m["txid"] = p.Transaction.ID.Int64()
 		m["postings"] = absPostings(p.Transaction.Postings)
 		m["ref"] = p.Transaction.Reference
-		if len(p.AccountMetadata) > 0 {
-			m["mval"] = "am"
-		}
+		m["mval"] = absAccountMetadata(p.AccountMetadata)
 	case ledger.RevertedTransactionLogPayload:
 		m["kind"] = "rev"
 		m["txid"] = p.RevertTransaction.ID.Int64()
@@ -277,6 +277,20 @@ func absLog(prev, l *ledger.ChainedLog, by string, od bool) map[string]any {
 		m["kind"] = "unknown"
 	}
 	return m
+}
+
+// absAccountMetadata: "" for none, "am" for exactly what the harness' script writes
+// (@c tag=v, @auditor tag=w), otherwise the content spelled out (so that an event and
+// its log entry that differ are unequal).
+func absAccountMetadata(am map[string]metadata.Metadata) string {
+	if len(am) == 0 {
+		return ""
+	}
+	if len(am) == 2 && len(am["c"]) == 1 && am["c"]["tag"] == "v" && len(am["auditor"]) == 1 && am["auditor"]["tag"] == "w" {
+		return "am"
+	}
+	b, _ := json.Marshal(am)
+	return "am:" + string(b)
 }
 
 // recorder is the message.Publisher given to the real bus.ledgerMonitor.
@@ -303,9 +317,7 @@ func (r *recorder) Publish(topic string, messages ...*message.Message) error {
 			}
 			_ = json.Unmarshal(ev.Payload, &p)
 			out["type"] = "committed"
-			if len(p.AccountMetadata) > 0 {
-				out["mval"] = "am"
-			}
+			out["mval"] = absAccountMetadata(p.AccountMetadata)
 			if len(p.Transactions) > 0 {
 				out["txid"] = p.Transactions[0].ID.Int64()
 				out["postings"] = absPostings(p.Transactions[0].Postings)
